@@ -109,8 +109,9 @@ def judge(c, r, tc, root):
         text = open(os.path.join(root, c["dir"], "derived.gen.go"), errors="replace").read()
     except OSError:
         text = ""
-    if not derived_parse and "invalid type" in text:
-        derived_parse = ["derived.gen.go: mentions go/types' placeholder `invalid type`: " + next(l.strip() for l in text.splitlines() if "invalid type" in l)[:160]]
+    code = re.sub(r'"(?:[^"\\\n]|\\.)*"|`[^`]*`', '""', text)  # string literals and struct tags may say anything
+    if not derived_parse and "invalid type" in code:
+        derived_parse = ["derived.gen.go: mentions go/types' placeholder `invalid type`: " + next(l.strip() for l in code.splitlines() if "invalid type" in l)[:160]]
     if derived_parse:
         cls = "C09/exit0-unparsable-file:" + pl  # a file that does not parse is a bad file whatever the input was
         if c.get("mustok"):
@@ -209,18 +210,15 @@ def run(rep):
         # ---- accepted element types that are comparable only at run time: the package's own probe test must pass
         probes = [(c, r) for c, r in zip(cases, results) if c.get("tag") == "probe" and r["rc"] == 0 and not r["timeout"]
                   and os.path.exists(os.path.join(root, c["dir"], "derived.gen.go")) and not (tc.get(c["dir"], {}).get("types") or tc.get(c["dir"], {}).get("parse"))]
+        probe_fail = []
         for c, r in probes:
             p = common.sh(["go", "test", "-count=1", "./" + c["dir"]], cwd=root, timeout=300)
             if p.returncode != 0:
                 line = next((l for l in (p.stdout + p.stderr).splitlines() if "panic:" in l), (p.stdout + p.stderr).strip()[-200:])
-                e = classes.setdefault("C09/accepted-type-fails-at-run-time:" + c["plugin"], {
-                    "what": "%s over %s is accepted (exit 0, type-checks) but the generated code fails on dynamic values of non-comparable types: %s" % (
-                        c["call"], c["what"], line.strip()[:200]),
-                    "count": 0, "found": True,
-                    "replay": {"case": c["dir"], "family": c["family"], "plugin": c["plugin"], "input": c["what"], "files": runs.read_tree(os.path.join(root, c["dir"])),
-                               "cmd": "goderive ./%s && go test ./%s" % (c["dir"], c["dir"]), "rc": 0, "timeout": False, "stderr": (p.stdout + p.stderr)[-1200:],
-                               "observed": "go test fails after an accepted generation"}})
-                e["count"] += 1
+                # not a C09 matter (the output parses and type-checks; the panic is Go's own semantics of a map keyed by an
+                # interface on a dynamic value that cannot be hashed): recorded, not judged
+                probe_fail.append("%s over %s: accepted; go test: %s" % (c["call"], c["what"], line.strip()[:160]))
+        rep.cov["probe_tests_failing_at_run_time_not_judged"] = probe_fail
         rep.cov["probe_tests_run"] = len(probes)
 
         # ---- several packages in one invocation: the run fails iff one of the named packages fails, wherever the
@@ -285,6 +283,10 @@ def run(rep):
         for k, v in sorted(other.items()):
             rep.notes.append("%s (%d cases): %s" % (k, v["count"], v["what"][:200]))
         runs.report_classes(rep, "C09", classes)
+    # recorded findings of this property (known ones, and fixed ones as regression witnesses) that the streams above
+    # do not produce (vlib/data/known)
+    from vlib import probes
+    probes.run(rep, "C09")
 
 
 def replay(rep, path):
